@@ -392,8 +392,23 @@ func fieldsByOrigName(t *sysl.Type) map[string]*sysl.Type {
 	}
 	for n, f := range fields {
 		key := n
-		if jt := f.GetAttrs()["json_tag"].GetS(); jt != "" {
-			key = jt
+		// the original name is kept as json_tag: on the field, or (for 'name(0..) <: sequence of T') on
+		// the collection type inside the field
+		for x := f; x != nil; {
+			if jt := x.GetAttrs()["json_tag"].GetS(); jt != "" {
+				key = jt
+				break
+			}
+			switch {
+			case x.GetList() != nil:
+				x = x.GetList().GetType()
+			case x.GetSequence() != nil:
+				x = x.GetSequence()
+			case x.GetSet() != nil:
+				x = x.GetSet()
+			default:
+				x = nil
+			}
 		}
 		out[key] = f
 	}
@@ -759,6 +774,12 @@ func xsdDocs(tier string) []xsdDoc {
 			for _, t2 := range types {
 				out = append(out, xsdDoc{Elems: []xsdElem{{Name: "e1", Type: t, Min: o[0], Max: o[1]}, {Name: "e2", Type: t2}}, Attrs: []xsdAttr{{Name: "a1", Type: "xs:string", Required: true}, {Name: "a2", Type: "xs:int"}}})
 			}
+		}
+	}
+	// element names that are Sysl keywords / built-in type names, in every occurrence form
+	for _, n := range []string{"date", "string", "int", "any", "type", "set"} {
+		for _, o := range occ {
+			out = append(out, xsdDoc{Elems: []xsdElem{{Name: n, Type: "xs:date", Min: o[0], Max: o[1]}, {Name: "e2", Type: "xs:string"}}})
 		}
 	}
 	// types derived by extension: {simple, complex} content x 0..2 attributes x 0..1 added elements
